@@ -82,6 +82,23 @@ Proof.
   destruct Hq as [Hq1 Hq2]. split; [|lia]. destruct (str a0); lia.
 Qed.
 
+(* the general rule: where p is strict for its value the rest need only be
+   weak, elsewhere the rest must be good for str *)
+Lemma gd_bind_dep {A B} (s1 : A -> bool) (str : B -> bool) (p : parser A) (q : A -> parser B) :
+  gd s1 p -> (forall a, if s1 a then wgd (q a) else gd str (q a)) -> gd str (bind p q).
+Proof.
+  intros Hp Hq cs b Hb. unfold bind. specialize (Hp cs b Hb).
+  destruct (p cs b) as [a b' cs'| | | | |]; auto.
+  destruct Hp as [Hp1 Hp2]. specialize (Hq a).
+  destruct (s1 a).
+  - assert (Hb' : mu b' cs' < F) by lia.
+    specialize (Hq cs' b' Hb'). destruct (q a cs' b'); auto; try lia.
+    destruct Hq as [Hq1 Hq2]. cbn beta in Hq1. split; [|lia]. destruct (str a0); lia.
+  - assert (Hb' : mu b' cs' < F) by lia.
+    specialize (Hq cs' b' Hb'). destruct (q a cs' b'); auto; try lia.
+    destruct Hq as [Hq1 Hq2]. split; [|lia]. destruct (str a0); lia.
+Qed.
+
 Lemma mu_cs_mono b cs cs' : cmu cs' <= cmu cs -> mu b cs' <= mu b cs.
 Proof. unfold mu. lia. Qed.
 
